@@ -84,6 +84,19 @@ class P:
         cases += flow.mk_cases("litcmp", [("EXEC:1:" + hx("%s == %s" % (a, b)), ("litcmp", a, b)) for a, b in
                                          [("1.10", "1.1"), ("1.0", "1"), ("0.0", "0"), ("0.1+0.2", "0.3"), ("1.10", "1.11"),
                                           ("100", "1.00*100"), ("0.30", "0.1*3")]])
+        # small-integer boundaries with both signs, at scale 0, every pair x every operator: what a fixed-width fast path
+        # (i32 / i64 / u64 arithmetic on "small" operands) would mishandle - i64::MIN % -1, i64::MIN * -1, i64::MAX + 1 ...
+        small = [0, 1, 2, 3, 10, 2**31 - 1, 2**31, 2**32, 2**63 - 1, 2**63, 2**63 + 1, 2**64 - 1, 2**64]
+        signed = [(False, m, 0) for m in small] + [(True, m, 0) for m in small if m]
+        bitems = []
+        for a in signed:
+            for b in signed:
+                for op in OPS[:4]:
+                    comp = (len(bitems) % 5 == 0)
+                    src = ("x %s y; x" % COMPOUND[op]) if comp else ("x %s y" % op)
+                    line = "CV:1:%s:%s CV:1:%s:%s EXEC:1:%s" % (hx("x"), mk_num(*a), hx("y"), mk_num(*b), hx(src))
+                    bitems.append((line, ("bin", op, a, b, comp)))
+        cases += flow.mk_cases("smallint", bitems)
         n = 4000 if tier == "quick" else 400000
         items = []
         pairs = [(a, b) for a in BOUND[:12] for b in BOUND[:12]]
